@@ -236,13 +236,32 @@ impl VisitMut for OptChainVisitor<'_> {
                     }
                 }
 
-                expr.visit_mut_children_with(self);
+                self.visit_mut_chain_spine(expr);
             }
 
-            _ => {
-                expr.visit_mut_children_with(self);
-            }
+            // anything that is not a link of the chain being lowered (arguments, computed keys,
+            // nested functions, the root object) is left alone: it is instrumented on its own later
+            _ => {}
         };
+    }
+}
+
+impl OptChainVisitor<'_> {
+    // walks down the chain only: callee of a call link, object of a member link
+    fn visit_mut_chain_spine(&mut self, expr: &mut Expr) {
+        match expr {
+            Expr::OptChain(opt_chain_expr) => match &mut *opt_chain_expr.base {
+                OptChainBase::Call(call_expr) => call_expr.callee.visit_mut_with(self),
+                OptChainBase::Member(member_expr) => member_expr.obj.visit_mut_with(self),
+            },
+            Expr::Call(call_expr) => {
+                if let Callee::Expr(callee) = &mut call_expr.callee {
+                    callee.visit_mut_with(self)
+                }
+            }
+            Expr::Member(member_expr) => member_expr.obj.visit_mut_with(self),
+            _ => {}
+        }
     }
 }
 
